@@ -34,6 +34,8 @@ CONFIGS = [
     ("task", (), True), ("arguments", (), True), ("keys", ("k",), True), ("keys", ("k",), False), ("task", (), False),
     ("disabled", (), True), ("keys", ("k", "v"), True),
 ]
+# (running mode, key arguments, reroute option, registration mode): both controls on, at different scopes
+CONFIGS_REG = [("keys", ("k",), True, "task"), ("arguments", (), False, "task"), ("task", (), True, "keys"), ("keys", ("k", "v"), True, "arguments")]
 
 
 def kv(d: dict[str, str]) -> str:
@@ -47,19 +49,23 @@ def untoks(line: str) -> list[str]:
 
 
 class World:
-    def __init__(self, ctx: Ctx, kind: str, ci: int, mode: str, keys: tuple, rer: bool, drv: LeanDriver, clock: VirtualClock, retries: int = 0):
+    def __init__(self, ctx: Ctx, kind: str, ci: int, mode: str, keys: tuple, rer: bool, drv: LeanDriver, clock: VirtualClock, retries: int = 0,
+                 reg: str = "disabled"):
         from pynenc.conf.config_task import ConcurrencyControlType as C
 
         self.ctx, self.kind, self.mode, self.keys, self.rer, self.drv, self.clock = ctx, kind, mode, keys, rer, drv, clock
+        self.reg = reg
         self.app = make_app(kind, ctx.tmp, app_id=f"c06{kind}{ci}{ctx.rng.randrange(10**6)}")
         opts: dict[str, Any] = {"running_concurrency": C(mode), "reroute_on_concurrency_control": rer, "max_retries": retries}
+        if reg != "disabled":
+            opts["registration_concurrency"] = C(reg)
         if keys:
             opts["key_arguments"] = keys
         self.task = self.app.task(T.cc_body, **opts)
         self.o = self.app.orchestrator
         self.tname = self.task.task_id.key
         drv.ask("o.reset")
-        drv.ask(f"cc.conf {tok(self.tname)} disabled {mode} 0 {'1' if rer else '0'} " + " ".join(tok(k) for k in keys))
+        drv.ask(f"cc.conf {tok(self.tname)} {reg} {mode} 0 {'1' if rer else '0'} " + " ".join(tok(k) for k in keys))
         self.invs: dict[str, dict] = {}
         self.threads: dict[str, threading.Thread] = {}
         self.nd = 0
@@ -128,7 +134,8 @@ class World:
         ser = dict(call.serialized_arguments)
         inv = self.task(**a)
         rec = self.o.get_invocation_status_record(inv.invocation_id)
-        self.invs[inv.invocation_id] = {"args": ser, "path": "single"}
+        if inv.invocation_id not in self.invs:      # (registration concurrency hands back the REGISTERED invocation of the key)
+            self.invs[inv.invocation_id] = {"args": ser, "path": "single"}
         self.drv.ask(f"cc.route {tok(self.tname)} {tok(call.call_id.key)} {tok(inv.invocation_id)} {tok(rec.runner_id)} {self.clock.us} {kv(ser)}")
 
     def submit_batch(self, arglist: list[dict[str, str]]) -> None:
@@ -248,6 +255,9 @@ def scenario_random(w: World, nsteps: int) -> None:
         if r < 0.30:
             w.submit_single(draw_args(rng))
             w.check_statuses("single submission")
+        elif r < 0.42 and w.reg != "disabled":
+            w.submit_single(draw_args(rng))         # the batch path refuses tasks with registration concurrency
+            w.check_statuses("single submission")
         elif r < 0.42:
             same = draw_args(rng)
             w.submit_batch([dict(same) if rng.random() < 0.6 else draw_args(rng) for _ in range(rng.randint(2, 3))])
@@ -309,6 +319,56 @@ def scenario_retry_blocked(w: World) -> None:
     for inv in got2:
         if w.o.get_invocation_status(inv.invocation_id).value == "running":
             w.finish(inv.invocation_id, "rA")
+
+
+def two_paths_probe(ctx: Ctx) -> None:
+    """the SAME call submitted once directly and once through the batch path (`parallelize` with the big argument as a common
+    argument), the argument long enough to be externalised and listed in `disable_cache_args`: the concurrency key is built from
+    the serialized arguments, so both submissions must carry the same ones - the second is blocked while the first runs"""
+    from pynenc.conf.config_task import ConcurrencyControlType as C
+
+    big = "B" * 96
+    for kind in ("mem", "sqlite"):
+        for mode, dis in ((C.ARGUMENTS, ("v",)), (C.KEYS, ("v",)), (C.ARGUMENTS, ())):
+            for order in ("single-first", "batch-first"):
+                app = make_app(kind, ctx.tmp, app_id=f"c06paths{kind}{ctx.rng.randrange(10**6)}", min_size_to_cache=16)
+                opts: dict[str, Any] = {"running_concurrency": mode, "reroute_on_concurrency_control": False, "disable_cache_args": dis}
+                if mode == C.KEYS:
+                    opts["key_arguments"] = ("k", "v")
+                task = app.task(T.cc_body, **opts)
+                o = app.orchestrator
+
+                def submit(path: str):
+                    if path == "single":
+                        return task("a", big, "e")
+                    # (two members: a single-member list does not take the batch path)
+                    return list(task.parallelize([{"k": "a", "w": "e"}, {"k": "zz", "w": "e"}], common_args={"v": big}).invocations)[0]
+
+                first = submit("single" if order == "single-first" else "batch")
+                got = list(o.get_invocations_to_run(1, rctx("rA")))
+                th = None
+                if got:
+                    T.CC_GATES[got[0].invocation_id] = threading.Event()
+                    th = threading.Thread(target=got[0].run, args=[rctx("rA")], daemon=True)
+                    th.start()
+                    t0 = _time.time()
+                    while _time.time() - t0 < 10 and o.get_invocation_status(first.invocation_id).value != "running":
+                        _time.sleep(0.001)
+                second = submit("batch" if order == "single-first" else "single")
+                got2 = [i.invocation_id for i in o.get_invocations_to_run(1, rctx("rB"))]
+                st1, st2 = o.get_invocation_status(first.invocation_id).value, o.get_invocation_status(second.invocation_id).value
+                ctx.count()
+                ctx.distinct((kind, "two-paths", mode.value, dis, order))
+                if st1 == "running" and (second.invocation_id in got2 or st2 in ("pending", "running")):
+                    ctx.report(f"two-running-same-key[{kind}]:single+batch-common-args",
+                               f"[{kind}] the same call ({mode.value} concurrency, disable_cache_args={dis}, a 96-character argument, min_size_to_cache 16) submitted {order}: the direct call and the "
+                               f"batch call with the argument as a common argument are {st1} and {st2} at once; serialized arguments "
+                               f"{ {k: v[:40] for k, v in first.call.serialized_arguments.items()} } vs { {k: v[:40] for k, v in second.call.serialized_arguments.items()} }",
+                               {"backend": kind, "scenario": "two-paths", "mode": mode.value, "disable_cache_args": list(dis), "order": order})
+                if th is not None:
+                    T.CC_GATES[got[0].invocation_id].set()
+                    th.join(5)
+                flush(app)
 
 
 def two_pollers_probe(ctx: Ctx) -> None:
@@ -389,7 +449,17 @@ def run(ctx: Ctx) -> None:
                             w3.close()
                         nd += w3.nd
                 ctx.sample({"backend": kind, "mode": mode, "keys": keys, "reroute": rer, "invocations": len(w.invs)})
+        for ci, (mode, keys, rer, reg) in enumerate(CONFIGS_REG if not ctx.quick else CONFIGS_REG[:2]):
+            for kind in ("mem", "sqlite"):
+                w = World(ctx, kind, 100 + ci, mode, keys, rer, drv, clock, reg=reg)
+                try:
+                    scenario_random(w, 50 if ctx.quick else 300)
+                finally:
+                    w.close()
+                nd += w.nd
+                ctx.sample({"backend": kind, "mode": mode, "keys": keys, "reroute": rer, "registration": reg, "invocations": len(w.invs)})
         ctx.obligation("correspondence: submissions, polls, worker starts, finishes on Mem and SQLite == CC model", nd == 0, f"{nd} disagreements")
+        two_paths_probe(ctx)
         two_pollers_probe(ctx)
     finally:
         clock.uninstall()
